@@ -3,10 +3,10 @@ package main
 // rules_observer.go — shared analysis of the stream-observer (couchbase/observer.go) for C03, C06, C07, C08.
 
 import (
-	"sort"
 	"fmt"
 	"go/token"
 	"go/types"
+	"sort"
 	"strings"
 
 	"golang.org/x/tools/go/ssa"
@@ -22,6 +22,55 @@ type obsInfo struct {
 	skipWin  *ssa.Function // isBeforeSkipWindow
 	need     *ssa.Function // needCatchup: the (uint64) bool helper the gate consults directly
 	persist  *ssa.Function // checkPersistSeqNo: the (uint64) bool helper polled in a loop by the gate or its wait helper
+	// fields by role (names are whatever the tree calls them today)
+	fClosed, fEndClosed, fPersist, fCatchNeed, fCatchSeq string
+}
+
+// flagSetBy: the boolean field (plain or atomic) that method m of the observer sets to true.
+func flagSetBy(w *World, m *ssa.Function) string {
+	name := ""
+	if m == nil {
+		return ""
+	}
+	allInstrs(m, func(in ssa.Instruction) {
+		if f, _, val := flagWrite(in); f != nil && w.Origin(val) == "const(true)" {
+			name = f.Name()
+		}
+	})
+	return name
+}
+
+// fieldsReadBy: names of the receiver's fields of the wanted kind that fn reads ("flag": bool/atomic.Bool, "uint64").
+func fieldsReadBy(fn *ssa.Function, kind string) []string {
+	seen := map[string]bool{}
+	var out []string
+	if fn == nil {
+		return nil
+	}
+	allInstrs(fn, func(in ssa.Instruction) {
+		v, ok := in.(ssa.Value)
+		if !ok {
+			return
+		}
+		var f *types.Var
+		switch kind {
+		case "flag":
+			f, _ = flagRead(v)
+		case "uint64":
+			if u, isU := v.(*ssa.UnOp); isU && u.Op == token.MUL {
+				if fl := fieldOfAddr(u.X); fl != nil {
+					if b, isB := fl.Type().Underlying().(*types.Basic); isB && b.Kind() == types.Uint64 {
+						f = fl
+					}
+				}
+			}
+		}
+		if f != nil && !seen[f.Name()] {
+			seen[f.Name()] = true
+			out = append(out, f.Name())
+		}
+	})
+	return out
 }
 
 // methodsBySig: the observer's methods whose parameters (after the receiver) and results have the given kinds.
@@ -116,6 +165,24 @@ func observerInfo(c *Ctx, id string) *obsInfo {
 		} else if direct && oi.need == nil {
 			oi.need = m
 		}
+	}
+	// field roles; the historical names are the fallback when a role cannot be resolved (the rules then fail on
+	// the missing location, never silently)
+	oi.fClosed, oi.fEndClosed, oi.fPersist, oi.fCatchNeed, oi.fCatchSeq = "closed", "endClosed", "persistSeqNo", "isCatchupNeed", "catchupSeqNo"
+	if n := flagSetBy(w, w.Method(pkg, oi.typ.Obj().Name(), "Close")); n != "" {
+		oi.fClosed = n
+	}
+	if n := flagSetBy(w, w.Method(pkg, oi.typ.Obj().Name(), "CloseEnd")); n != "" {
+		oi.fEndClosed = n
+	}
+	if fs := fieldsReadBy(oi.persist, "uint64"); len(fs) == 1 {
+		oi.fPersist = fs[0]
+	}
+	if fs := fieldsReadBy(oi.need, "flag"); len(fs) == 1 {
+		oi.fCatchNeed = fs[0]
+	}
+	if fs := fieldsReadBy(oi.need, "uint64"); len(fs) == 1 {
+		oi.fCatchSeq = fs[0]
 	}
 	return oi
 }
@@ -232,7 +299,7 @@ func deliverHarness(oi *obsInfo) *Harness {
 	recv := oi.deliver.Params[0].Name()
 	return &Harness{
 		Fn:    oi.deliver,
-		Bools: []string{recv + ".closed"},
+		Bools: []string{recv + "." + oi.fClosed},
 		Quiet: append([]string{"reflect.", "context.", "tracing.", "(*tracing.", "call:"}, quietLog...),
 	}
 }
@@ -252,7 +319,7 @@ func c03DeliverOAE(c *Ctx, id string, oi *obsInfo) {
 				calls = append(calls, e)
 			}
 		}
-		if st.B(recv + ".closed") {
+		if st.B(recv + "." + oi.fClosed) {
 			if len(calls) != 0 {
 				return "listener called although the observer is closed"
 			}
